@@ -13,6 +13,17 @@ def cumsum : List Nat → List Nat
 /-- `numpy.searchsorted(sorted, v, side="right")` = number of elements `≤ v`. -/
 def countLe (sorted : List Nat) (v : Nat) : Nat := (sorted.filter (· ≤ v)).length
 
+/-! numpy primitives used by the translated `partition_by_sum` (Gen/Utils.lean) -/
+/-- `numpy.arange(a, b)`. -/
+def npArange (a b : Nat) : List Nat := (List.range (b - a)).map (· + a)
+/-- `numpy.searchsorted(sorted, v, side="right")`. -/
+def searchsortedRight (sorted : List Nat) (v : Nat) : Nat := countLe sorted v
+/-- Distinct values (first occurrences dropped); `numpy.unique(l)` is its sorted version, only its size is used. -/
+def distinct : List Nat → List Nat
+  | [] => []
+  | x :: xs => if xs.contains x then distinct xs else x :: distinct xs
+def npUniqueSize (l : List Nat) : Nat := (distinct l).length
+
 /-- `partition_by_sum` (with the fix that a split point at 0 is "no partition"). -/
 def partitionBySum (sizes : List Nat) (parts : Nat) : Except Err (List Nat) :=
   if parts > sizes.length then .error .valueError else
